@@ -1,3 +1,677 @@
-/- Model for C10: not written yet -/
+import HapVerif.Model.C16
+/-!
+# C10 — Gateway API attachment rules: executable model and Spec (core-only)
+
+Model of `pkg/converters/gateway/gateway.go` (`Sync`, `syncHTTPRoutes`, `syncTCPRoutes`,
+`sortHTTPRoutes`/`sortTCPRoutes`, `syncRoute`, `syncHTTPRouteGateway`, `syncTCPRouteGateway`,
+`checkListenerAllowed{,Kind,Namespace}`, `createBackend`, `createHTTPHosts`, `createTCPService`,
+`filterHostnames`) and of the GatewayClass filter of `pkg/controller/services/cache.go`
+(`GetGateway*` → `isValidGateway` → `getGatewayClass`/`IsValidGatewayClass`).
+
+The loop nest of the Go code (routes sorted by creation time then `ns/name`; parentRefs; listeners;
+rules; matches; hostnames) is mirrored by the `flatMap` nest of `events`; each `continue`/early return
+of the Go code is a guard of that nest.  One *event* is one arrival at `h.AddLink` / at the
+`tcphost.Backend` assignment, carrying the backend that `createBackend` returned for the rule.  The
+mutable haproxy model is then "first declared wins" per key (`firsts`): `Backends().AcquireBackend`
+per backend id, `FindPathWithLink` per (hostname, path, match type, headers), `AcquireTCPService`
+per port.
+
+Not modelled (excluded from the generator, see registry): listener TLS (certificateRefs, passthrough),
+service annotations, endpoint slices, ExternalName services, parentRef.port.
+-/
 namespace HapVerif.C10
+
+def gwGroup : String := "gateway.networking.k8s.io"
+def defaultHost : String := "<default>"
+
+/-! ## input objects -/
+
+/-- one requirement of a label selector: `op` is `=` (matchLabels, `vals = [v]`), `In`, `NotIn`,
+`Exists`, `DoesNotExist` (matchExpressions) or anything else (invalid operator) -/
+structure Term where
+  key : String
+  op : String
+  vals : List String
+deriving DecidableEq, Repr
+
+structure RKind where
+  group : Option String
+  kind : String
+deriving DecidableEq, Repr
+
+structure NsRule where
+  frm : Option String            -- `From`: Same | All | Selector | anything else
+  sel : Option (List Term)
+deriving DecidableEq, Repr
+
+structure Allowed where
+  kinds : List RKind
+  nss : Option NsRule
+deriving DecidableEq, Repr
+
+structure Listener where
+  name : String
+  host : Option String
+  proto : String
+  port : Nat
+  allowed : Option Allowed
+deriving DecidableEq, Repr
+
+structure Gateway where
+  ns : String
+  name : String
+  cls : String
+  listeners : List Listener
+deriving DecidableEq, Repr
+
+structure ParentRef where
+  group : Option String
+  kind : Option String
+  ns : Option String
+  name : String
+  sect : Option String
+deriving DecidableEq, Repr
+
+structure HMatch where
+  ptype : Option String          -- Exact | PathPrefix | RegularExpression | anything else
+  value : Option String
+  hdr : String                   -- canonical text of the header matches, `-` when none
+deriving DecidableEq, Repr
+
+structure BRef where
+  svc : String
+  port : Option Nat
+  weight : Option Int
+deriving DecidableEq, Repr
+
+structure Rule where
+  mts : List HMatch
+  refs : List BRef
+deriving DecidableEq, Repr
+
+structure Route where
+  tcp : Bool
+  ns : String
+  name : String
+  ts : Nat
+  parents : List ParentRef
+  hostnames : List String
+  rules : List Rule
+deriving DecidableEq, Repr
+
+structure Svc where
+  ns : String
+  name : String
+  ports : List (Nat × List String)     -- service port ↦ ready `ip:port` targets
+deriving DecidableEq, Repr
+
+structure World where
+  classes : List (String × Bool)                       -- GatewayClass name ↦ controllerName is ours
+  nss : List (String × List (String × String))         -- Namespace name ↦ labels
+  gws : List Gateway
+  routes : List Route
+  svcs : List Svc
+deriving Repr
+
+/-! ## admission: the code path -/
+
+/-- `if x != nil && *x != "" { v = *x }` -/
+def orDefault (o : Option String) (d : String) : String :=
+  match o with
+  | some s => if s = "" then d else s
+  | none => d
+
+/-- cache.go `isValidGateway`: class found and `Spec.ControllerName == config.ControllerName` -/
+def classOurs (w : World) (cls : String) : Bool :=
+  match w.classes.lookup cls with
+  | some b => b
+  | none => false
+
+def refersGateway (pr : ParentRef) : Bool :=
+  orDefault pr.group gwGroup == gwGroup && orDefault pr.kind "Gateway" == "Gateway"
+
+def parentNs (r : Route) (pr : ParentRef) : String := orDefault pr.ns r.ns
+
+def findGateway (w : World) (ns name : String) : Option Gateway :=
+  w.gws.find? fun g => g.ns == ns && g.name == name
+
+/-- cache.go `GetGateway`: not found ⇒ error ⇒ `newGatewaySource` returns nil; class not ours ⇒ nil -/
+def getGateway (w : World) (ns name : String) : Option Gateway :=
+  match findGateway w ns name with
+  | some g => if classOurs w g.cls then some g else none
+  | none => none
+
+/-- `syncRoute`: group/kind defaulting and check, namespace defaulting, gateway lookup -/
+def resolveParent (w : World) (r : Route) (pr : ParentRef) : Option Gateway :=
+  if refersGateway pr then getGateway w (parentNs r pr) pr.name else none
+
+def sectionOK (pr : ParentRef) (l : Listener) : Bool :=
+  match pr.sect with
+  | none => true
+  | some s => s == l.name
+
+def routeKind (r : Route) : String := if r.tcp then "TCPRoute" else "HTTPRoute"
+
+/-- `checkListenerAllowedKind` -/
+def kindAllowed (r : Route) (kinds : List RKind) : Bool :=
+  kinds.isEmpty || kinds.any fun k => (k.group == none || k.group == some gwGroup) && k.kind == routeKind r
+
+/-- `metav1.LabelSelectorAsSelector` fails on these requirements -/
+def termValid (t : Term) : Bool :=
+  if t.op = "=" then t.vals.length = 1          -- matchLabels is a map: exactly one value
+  else if t.op = "In" ∨ t.op = "NotIn" then !t.vals.isEmpty
+  else if t.op = "Exists" ∨ t.op = "DoesNotExist" then t.vals.isEmpty
+  else false
+
+/-- `labels.Requirement.Matches` -/
+def termMatch (ls : List (String × String)) (t : Term) : Bool :=
+  match ls.lookup t.key with
+  | some v =>
+    if t.op = "=" ∨ t.op = "In" then t.vals.contains v
+    else if t.op = "NotIn" then !t.vals.contains v
+    else if t.op = "Exists" then true
+    else false
+  | none => t.op = "NotIn" ∨ t.op = "DoesNotExist"
+
+def selectorAllows (w : World) (r : Route) (sel : Option (List Term)) : Bool :=
+  match sel with
+  | none => false
+  | some ts =>
+    ts.all termValid &&
+      match w.nss.lookup r.ns with
+      | none => false                       -- GetNamespace error
+      | some ls => ts.all (termMatch ls)
+
+/-- `checkListenerAllowedNamespace` -/
+def nsAllowed (w : World) (gw : Gateway) (r : Route) (nr : Option NsRule) : Bool :=
+  match nr with
+  | none => false
+  | some nr =>
+    match nr.frm with
+    | none => false
+    | some f =>
+      if f = "Same" ∧ r.ns = gw.ns then true
+      else if f = "All" then true
+      else if f = "Selector" then selectorAllows w r nr.sel
+      else false
+
+/-- `checkListenerAllowed` -/
+def listenerAllowed (w : World) (gw : Gateway) (r : Route) (l : Listener) : Bool :=
+  match l.allowed with
+  | none => false
+  | some a => kindAllowed r a.kinds && nsAllowed w gw r a.nss
+
+/-- the decision of the code for one (route, parentRef, gateway, listener) -/
+def attaches (w : World) (r : Route) (pr : ParentRef) (gw : Gateway) (l : Listener) : Bool :=
+  resolveParent w r pr == some gw && gw.listeners.contains l && sectionOK pr l && listenerAllowed w gw r l
+
+/-! ## backends -/
+
+structure Server where
+  name : String
+  target : String
+  weight : Int
+deriving DecidableEq, Repr
+
+structure Backend where
+  id : String
+  tcp : Bool
+  servers : List Server
+deriving DecidableEq, Repr
+
+def backendID (r : Route) (idx : Nat) : String :=
+  r.ns ++ "_" ++ r.name ++ "_" ++ (if r.tcp then "_tcprule" else "_rule") ++ toString idx
+
+def findSvc (w : World) (ns name : String) : Option Svc :=
+  w.svcs.find? fun s => s.ns == ns && s.name == name
+
+def sortStr (l : List String) : List String := l.mergeSort fun a b => decide (a ≤ b)
+
+/-- one backendRef of `createBackend`: `none` = skipped (nil port, service not found, port not found);
+the service is always looked up in the ROUTE's namespace -/
+def refEps (w : World) (ns : String) (b : BRef) : Option (List String) :=
+  match b.port with
+  | none => none
+  | some p =>
+    match findSvc w ns b.svc with
+    | none => none
+    | some s =>
+      match s.ports.lookup p with
+      | none => none
+      | some eps => some (sortStr eps)
+
+/-- (weight, sorted ready targets) of the backendRefs that are not skipped -/
+def refGroups (w : World) (r : Route) (rule : Rule) : List (Int × List String) :=
+  rule.refs.filterMap fun b => (refEps w r.ns b).map fun eps => (b.weight.getD 1, eps)
+
+def pad3 (n : Nat) : String :=
+  let s := toString n
+  String.ofList (List.replicate (3 - s.length) '0') ++ s
+
+/-- `Backend.AddEndpoint` with the default (sequence) naming -/
+def nameServers (ts : List (String × Int)) : List Server :=
+  ts.zipIdx.map fun (tw, i) => { name := "srv" ++ pad3 (i + 1), target := tw.1, weight := tw.2 }
+
+/-- targets with the weight of their group (`RebalanceWeight(cl, 128)`, C16 model) -/
+def weighted (groups : List (Int × List String)) : List (String × Int) :=
+  let cls := groups.map fun g => ({ weight := g.1, length := g.2.length } : C16.Cluster)
+  let ws := C16.rebalance cls 128
+  (groups.zip ws).flatMap fun gw => gw.1.2.map fun e => (e, gw.2.getD 0)
+
+/-- `createBackend` -/
+def mkBackend (w : World) (r : Route) (idx : Nat) (rule : Rule) : Option Backend :=
+  let groups := refGroups w r rule
+  if groups.isEmpty then none
+  else some { id := backendID r idx, tcp := r.tcp, servers := nameServers (weighted groups) }
+
+/-! ## hosts and paths -/
+
+structure Link where
+  path : String
+  mtype : String
+  hdr : String
+deriving DecidableEq, Repr
+
+/-- `filterHostnames` (documented: a listener hostname other than empty/`*` overrides the route's) -/
+def filterHostnames (lh : Option String) (rh : List String) : List String :=
+  match lh with
+  | some h => if h = "" ∨ h = "*" then (if rh.isEmpty then ["*"] else rh) else [h]
+  | none => if rh.isEmpty then ["*"] else rh
+
+def normHost (h : String) : String := if h = "" ∨ h = "*" then defaultHost else h
+
+def matchType (t : Option String) : String :=
+  match t with
+  | some s => if s = "Exact" then "exact" else if s = "RegularExpression" then "regex" else "prefix"
+  | none => "prefix"
+
+def linkOf (m : HMatch) : Link :=
+  { path := (match m.value with | some v => if v = "" then "/" else v | none => "/"),
+    mtype := matchType m.ptype, hdr := m.hdr }
+
+def defaultMatch : HMatch := { ptype := none, value := none, hdr := "-" }
+
+def effMatches (rule : Rule) : List HMatch := if rule.mts.isEmpty then [defaultMatch] else rule.mts
+
+/-! ## events -/
+
+structure PathDecl where
+  host : String
+  link : Link
+  backend : Backend
+deriving DecidableEq, Repr
+
+structure TcpDecl where
+  port : Nat
+  backend : Backend
+deriving DecidableEq, Repr
+
+inductive Ev where
+  | path (d : PathDecl)
+  | tcp (d : TcpDecl)
+deriving DecidableEq, Repr
+
+def Ev.backend : Ev → Backend
+  | .path d => d.backend
+  | .tcp d => d.backend
+def Ev.path? : Ev → Option PathDecl
+  | .path d => some d
+  | .tcp _ => none
+def Ev.tcp? : Ev → Option TcpDecl
+  | .path _ => none
+  | .tcp d => some d
+
+/-- body of the rule loop once `createBackend` returned `b` -/
+def ruleEvents (r : Route) (l : Listener) (rule : Rule) (b : Backend) : List Ev :=
+  if r.tcp then [Ev.tcp { port := l.port, backend := b }]
+  else (effMatches rule).flatMap fun m =>
+    (filterHostnames l.host r.hostnames).map fun h =>
+      Ev.path { host := normHost h, link := linkOf m, backend := b }
+
+def rulesEvents (w : World) (r : Route) (l : Listener) : List Ev :=
+  r.rules.zipIdx.flatMap fun ri =>
+    match mkBackend w r ri.2 ri.1 with
+    | none => []
+    | some b => ruleEvents r l ri.1 b
+
+/-- `syncHTTPRouteGateway` / `syncTCPRouteGateway` -/
+def gatewayEvents (w : World) (r : Route) (pr : ParentRef) (gw : Gateway) : List Ev :=
+  gw.listeners.flatMap fun l =>
+    if sectionOK pr l && listenerAllowed w gw r l then rulesEvents w r l else []
+
+/-- `syncRoute` -/
+def routeEvents (w : World) (r : Route) : List Ev :=
+  r.parents.flatMap fun pr =>
+    match resolveParent w r pr with
+    | none => []
+    | some gw => gatewayEvents w r pr gw
+
+def rkey (r : Route) : String := r.ns ++ "/" ++ r.name
+
+/-- `sortHTTPRoutes` / `sortTCPRoutes`: creation timestamp, then `namespace/name` -/
+def routeLe (a b : Route) : Bool :=
+  if a.ts = b.ts then decide (rkey a ≤ rkey b) else decide (a.ts < b.ts)
+
+def sortRoutes (rs : List Route) : List Route := rs.mergeSort routeLe
+
+/-- `Sync`: HTTPRoutes, then TCPRoutes -/
+def events (w : World) : List Ev :=
+  (sortRoutes (w.routes.filter fun r => !r.tcp)).flatMap (routeEvents w) ++
+  (sortRoutes (w.routes.filter fun r => r.tcp)).flatMap (routeEvents w)
+
+/-! ## the haproxy model: first declared wins -/
+
+def addFirst {α κ} [DecidableEq κ] (key : α → κ) (acc : List α) (x : α) : List α :=
+  if acc.any (fun y => key y = key x) then acc else acc ++ [x]
+
+/-- keep the first element of every key, in order -/
+def firsts {α κ} [DecidableEq κ] (key : α → κ) (l : List α) : List α := l.foldl (addFirst key) []
+
+structure State where
+  backends : List Backend
+  paths : List PathDecl
+  tcps : List TcpDecl
+deriving Repr
+
+def pathKey (d : PathDecl) : String × Link := (d.host, d.link)
+
+def pathDecls (w : World) : List PathDecl := (events w).filterMap Ev.path?
+def tcpDecls (w : World) : List TcpDecl := (events w).filterMap Ev.tcp?
+
+def sync (w : World) : State :=
+  { backends := firsts (·.id) ((events w).map Ev.backend),
+    paths := firsts pathKey (pathDecls w),
+    tcps := firsts (·.port) (tcpDecls w) }
+
+/-! ## canonical text (what the harness prints for the real haproxy model) -/
+
+def showServer (s : Server) : String := s.name ++ "=" ++ s.target ++ "*" ++ toString s.weight
+def showBackend (b : Backend) : String :=
+  b.id ++ "~" ++ (if b.tcp then "1" else "0") ++ "{" ++ ",".intercalate (b.servers.map showServer) ++ "}"
+def showPath (d : PathDecl) : String :=
+  d.link.path ++ "~" ++ d.link.mtype ++ "~" ++ d.link.hdr ++ ">" ++ d.backend.id
+
+def dedupStr (l : List String) : List String := firsts id l
+
+def joinOr (l : List String) : String := if l.isEmpty then "-" else ";".intercalate l
+
+def natLe (a b : TcpDecl) : Bool := decide (a.port ≤ b.port)
+
+def render (s : State) : String :=
+  let hostnames := sortStr (dedupStr (s.paths.map (·.host)))
+  let hosts := hostnames.map fun h =>
+    h ++ "{" ++ ",".intercalate (sortStr ((s.paths.filter (·.host = h)).map showPath)) ++ "}"
+  joinOr (sortStr hosts) ++ "#" ++ joinOr (sortStr (s.backends.map showBackend)) ++ "#" ++
+    joinOr ((s.tcps.mergeSort natLe).map fun t => toString t.port ++ ">" ++ t.backend.id)
+
+/-! ## Spec: what the property demands (written from docs/…/gateway-api.md and the Gateway API
+semantics of `parentRefs` and `allowedRoutes`) -/
+
+/-- the parentRef designates a Gateway (group/kind absent, empty, or the Gateway ones) -/
+def RefersGateway (pr : ParentRef) : Prop :=
+  (pr.group = none ∨ pr.group = some "" ∨ pr.group = some gwGroup) ∧
+  (pr.kind = none ∨ pr.kind = some "" ∨ pr.kind = some "Gateway")
+
+/-- namespace designated by the parentRef: its own, else the route's -/
+def ParentNs (r : Route) (pr : ParentRef) (ns : String) : Prop :=
+  (∃ n, pr.ns = some n ∧ n ≠ "" ∧ ns = n) ∨ ((pr.ns = none ∨ pr.ns = some "") ∧ ns = r.ns)
+
+/-- the Gateway's GatewayClass exists and names this controller -/
+def ClassOurs (w : World) (gw : Gateway) : Prop := (gw.cls, true) ∈ w.classes
+
+def SectionOK (pr : ParentRef) (l : Listener) : Prop := ∀ s, pr.sect = some s → s = l.name
+
+/-- allowedRoutes.kinds: empty ⇒ any kind the listener protocol supports; otherwise the route's kind
+must be listed with the Gateway API group (absent group = that group) -/
+def KindListed (r : Route) (a : Allowed) : Prop :=
+  a.kinds = [] ∨ ∃ k ∈ a.kinds, (k.group = none ∨ k.group = some gwGroup) ∧ k.kind = routeKind r
+
+/-- Gateway API: the kinds a listener may accept are bounded by its protocol.  Documented
+(gateway-api.md, Conformance): "Listener Port and Protocol are implemented for TCPRoute, but they are
+not implemented for HTTPRoute".  So an HTTPRoute is compatible with every listener, a TCPRoute only
+with `TCP` (or `TLS`) listeners. -/
+def ProtoCompat (r : Route) (l : Listener) : Prop := r.tcp = true → (l.proto = "TCP" ∨ l.proto = "TLS")
+
+def TermHolds (ls : List (String × String)) (t : Term) : Prop :=
+  (t.op = "=" ∧ ∃ v, t.vals = [v] ∧ (t.key, v) ∈ ls) ∨
+  (t.op = "In" ∧ ∃ v ∈ t.vals, (t.key, v) ∈ ls) ∨
+  (t.op = "NotIn" ∧ t.vals ≠ [] ∧ ∀ v ∈ t.vals, (t.key, v) ∉ ls) ∨
+  (t.op = "Exists" ∧ t.vals = [] ∧ ∃ v, (t.key, v) ∈ ls) ∨
+  (t.op = "DoesNotExist" ∧ t.vals = [] ∧ ∀ v, (t.key, v) ∉ ls)
+
+/-- allowedRoutes.namespaces: Same / All / Selector over the labels of the route's Namespace;
+an absent allowedRoutes / namespaces / from admits nothing (the API server always defaults them) -/
+def NsOK (w : World) (gw : Gateway) (r : Route) (a : Allowed) : Prop :=
+  ∃ nr f, a.nss = some nr ∧ nr.frm = some f ∧
+    ((f = "Same" ∧ r.ns = gw.ns) ∨ f = "All" ∨
+     (f = "Selector" ∧ ∃ ts ls, nr.sel = some ts ∧ (r.ns, ls) ∈ w.nss ∧ ∀ t ∈ ts, TermHolds ls t))
+
+/-- admission without the protocol bound (what the code decides) -/
+structure AdmittedNoProto (w : World) (r : Route) (pr : ParentRef) (gw : Gateway) (l : Listener) : Prop where
+  refers : RefersGateway pr
+  gwIn : gw ∈ w.gws
+  gwNs : ParentNs r pr gw.ns
+  gwName : gw.name = pr.name
+  lIn : l ∈ gw.listeners
+  classOurs : ClassOurs w gw
+  sectOK : SectionOK pr l
+  allowed : ∃ a, l.allowed = some a ∧ KindListed r a ∧ NsOK w gw r a
+
+/-- **the admission rule of the property**: class ∧ section ∧ kind (listed ∧ protocol) ∧ namespace -/
+def Admitted (w : World) (r : Route) (pr : ParentRef) (gw : Gateway) (l : Listener) : Prop :=
+  AdmittedNoProto w r pr gw l ∧ ProtoCompat r l
+
+/-- object identity: what Kubernetes guarantees about the object sets -/
+structure WF (w : World) : Prop where
+  gwUnique : w.gws.Pairwise fun a b => ¬(a.ns = b.ns ∧ a.name = b.name)
+  classUnique : w.classes.Pairwise fun a b => a.1 ≠ b.1
+  nsUnique : w.nss.Pairwise fun a b => a.1 ≠ b.1
+  labelUnique : ∀ n ∈ w.nss, n.2.Pairwise fun a b => a.1 ≠ b.1
+
+/-! ## Spec as a computable oracle over an observed configuration -/
+
+def specParentNs (r : Route) (pr : ParentRef) : String :=
+  match pr.ns with
+  | some n => if n = "" then r.ns else n
+  | none => r.ns
+
+def specRefers (pr : ParentRef) : Bool :=
+  (pr.group == none || pr.group == some "" || pr.group == some gwGroup) &&
+  (pr.kind == none || pr.kind == some "" || pr.kind == some "Gateway")
+
+def specTerm (ls : List (String × String)) (t : Term) : Bool :=
+  let has := ls.any fun kv => kv.1 == t.key
+  let hasIn := ls.any fun kv => kv.1 == t.key && t.vals.contains kv.2
+  if t.op = "=" then t.vals.length == 1 && hasIn
+  else if t.op = "In" then hasIn
+  else if t.op = "NotIn" then !t.vals.isEmpty && !hasIn
+  else if t.op = "Exists" then t.vals.isEmpty && has
+  else if t.op = "DoesNotExist" then t.vals.isEmpty && !has
+  else false
+
+/-- the four conjuncts of the admission rule for a candidate (gateway matched by namespace/name) -/
+structure Conj where
+  cls : Bool
+  sect : Bool
+  kind : Bool
+  proto : Bool
+  nsr : Bool
+deriving Repr
+
+def specConj (w : World) (r : Route) (pr : ParentRef) (gw : Gateway) (l : Listener) : Conj :=
+  { cls := w.classes.any fun c => c.1 == gw.cls && c.2,
+    sect := (match pr.sect with | none => true | some s => s == l.name),
+    kind := (match l.allowed with
+      | none => false
+      | some a => a.kinds.isEmpty || a.kinds.any fun k => (k.group == none || k.group == some gwGroup) && k.kind == routeKind r),
+    proto := !r.tcp || l.proto == "TCP" || l.proto == "TLS",
+    nsr := (match l.allowed with
+      | none => false
+      | some a =>
+        match a.nss with
+        | none => false
+        | some nr =>
+          match nr.frm with
+          | none => false
+          | some f =>
+            (f == "Same" && r.ns == gw.ns) || f == "All" ||
+            (f == "Selector" &&
+              match nr.sel with
+              | none => false
+              | some ts => w.nss.any fun n => n.1 == r.ns && ts.all (specTerm n.2))) }
+
+def Conj.all (c : Conj) : Bool := c.cls && c.sect && c.kind && c.proto && c.nsr
+
+/-- candidates of a route: every (parentRef, gateway, listener) whose gateway the parentRef designates -/
+def candidates (w : World) (r : Route) : List (ParentRef × Gateway × Listener) :=
+  r.parents.flatMap fun pr =>
+    if specRefers pr then
+      (w.gws.filter fun g => g.ns == specParentNs r pr && g.name == pr.name).flatMap fun gw =>
+        gw.listeners.map fun l => (pr, gw, l)
+    else []
+
+def admittedListeners (w : World) (r : Route) : List Listener :=
+  (candidates w r).filterMap fun c => if (specConj w r c.1 c.2.1 c.2.2).all then some c.2.2 else none
+
+/-- a declaration the Spec expects: its precedence (route creation time, route name, rule index),
+its key (host + link, or port) and the backend id it points to -/
+structure SDecl where
+  ts : Nat
+  rkey : String
+  rule : Nat
+  host : String           -- "" for a TCP declaration
+  link : Link
+  port : Nat
+  bid : String
+deriving Repr
+
+def sdeclBefore (a b : SDecl) : Bool :=
+  a.ts < b.ts || (a.ts == b.ts && (a.rkey < b.rkey || (a.rkey == b.rkey && a.rule < b.rule)))
+
+/-- resolvable rules of a route: (index, rule) with at least one backendRef that resolves -/
+def liveRules (w : World) (r : Route) : List (Rule × Nat) :=
+  r.rules.zipIdx.filter fun ri => !(refGroups w r ri.1).isEmpty
+
+def specDecls (w : World) : List SDecl :=
+  w.routes.flatMap fun r =>
+    (admittedListeners w r).flatMap fun l =>
+      (liveRules w r).flatMap fun ri =>
+        if r.tcp then
+          [{ ts := r.ts, rkey := rkey r, rule := ri.2, host := "", link := ⟨"", "", ""⟩, port := l.port, bid := backendID r ri.2 }]
+        else
+          (effMatches ri.1).flatMap fun m =>
+            (filterHostnames l.host r.hostnames).map fun h =>
+              { ts := r.ts, rkey := rkey r, rule := ri.2, host := normHost h, link := linkOf m, port := 0, bid := backendID r ri.2 }
+
+/-- observed configuration (parsed from the harness output) -/
+structure Obs where
+  paths : List (String × Link × String)      -- host, link, backend id
+  backends : List Backend
+  tcps : List (Nat × String)
+deriving Repr
+
+def ownerOf (w : World) (bid : String) : Option Route :=
+  w.routes.find? fun r => (List.range r.rules.length).any fun i => backendID r i == bid
+
+def ownedBy (w : World) (r : Route) (bid : String) : Bool :=
+  match ownerOf w bid with
+  | some r' => r'.tcp == r.tcp && r'.ns == r.ns && r'.name == r.name
+  | none => false
+
+/-- why a route that the Spec does not admit got configuration: the single conjunct whose relaxation
+would admit it, looking at the candidates (parentRef, gateway, listener) that can explain what is
+observed for the route (the TCP port / one of the hostnames); all candidates if none does.  The
+protocol clause is tested first (a candidate failing only there explains the observation). -/
+def whyNot (w : World) (o : Obs) (r : Route) : String :=
+  let ports := o.tcps.filterMap fun t => if ownedBy w r t.2 then some t.1 else none
+  let hosts := o.paths.filterMap fun p => if ownedBy w r p.2.2 then some p.1 else none
+  let all := candidates w r
+  let cons := all.filter fun c =>
+    if r.tcp then ports.contains c.2.2.port
+    else ((filterHostnames c.2.2.host r.hostnames).map normHost).any hosts.contains
+  let cs := (if cons.isEmpty then all else cons).map fun c => specConj w r c.1 c.2.1 c.2.2
+  if cs.any (fun c => c.cls && c.sect && c.kind && !c.proto && c.nsr) then "tcproute-attached-through-non-tcp-listener"
+  else if cs.any (fun c => !c.cls && c.sect && c.kind && c.proto && c.nsr) then "attached-through-foreign-class-gateway"
+  else if cs.any (fun c => c.cls && c.sect && c.kind && c.proto && !c.nsr) then "attached-despite-namespace-rule"
+  else if cs.any (fun c => c.cls && c.sect && !c.kind && c.nsr) then "attached-despite-kind-rule"
+  else if cs.any (fun c => c.cls && !c.sect && c.kind && c.proto && c.nsr) then "attached-despite-section-name"
+  else "attached-without-admission"
+
+/-- expected servers of a backend: the ready targets of the resolvable backendRefs, in order -/
+def expectedGroups (w : World) (bid : String) : Option (List (Int × List String)) :=
+  match ownerOf w bid with
+  | none => none
+  | some r =>
+    match (List.range r.rules.length).find? fun i => backendID r i == bid with
+    | none => none
+    | some i => r.rules[i]?.map fun rule => refGroups w r rule
+
+def takeGroups : List (Int × List String) → List Server → List (C16.Cluster × List Server)
+  | [], _ => []
+  | g :: gs, ss => ({ weight := g.1, length := g.2.length }, ss.take g.2.length) :: takeGroups gs (ss.drop g.2.length)
+
+def nodupStr (l : List String) : Bool := (dedupStr l).length == l.length
+
+/-- weights: constant inside a backendRef's group and acceptable to the C16 Spec -/
+def weightsOK (groups : List (Int × List String)) (ss : List Server) : Bool :=
+  let gs := takeGroups groups ss
+  gs.all (fun g => match g.2 with | [] => true | s :: rest => rest.all (·.weight = s.weight)) &&
+  (C16.oracle (gs.map (·.1)) (gs.map fun g => match g.2 with | [] => none | s :: _ => some s.weight)).isNone
+
+def firstSome {α} (l : List α) (f : α → Option String) : Option String := l.findSome? f
+
+def winner (ds : List SDecl) : Option SDecl :=
+  ds.foldl (fun acc d => match acc with | none => some d | some a => if sdeclBefore d a then some d else some a) none
+
+def oracle (w : World) (o : Obs) : Option String :=
+  let ds := specDecls w
+  let bids := dedupStr (ds.map (·.bid))
+  -- nothing else: every backend belongs to an admitted (route, listener)
+  (firstSome o.backends fun b =>
+    if bids.contains b.id then none else
+      match ownerOf w b.id with
+      | some r => some (whyNot w o r)
+      | none => some "backend-of-no-route") <|>
+  -- every admitted, resolvable rule has its backend
+  (firstSome bids fun id => if o.backends.any (·.id == id) then none else some "admitted-route-produced-nothing") <|>
+  -- servers and weights
+  (firstSome o.backends fun b =>
+    match expectedGroups w b.id with
+    | none => some "backend-of-no-route"
+    | some gs =>
+      if !nodupStr (b.servers.map (·.name)) then some "duplicate-server-name"
+      else if b.servers.map (·.target) ≠ gs.flatMap (·.2) then some "wrong-servers"
+      else if !weightsOK gs b.servers then some "wrong-weight"
+      else none) <|>
+  -- nothing else: every path / tcp service is a declaration of an admitted (route, listener), and
+  -- the first declared one (older route, then namespace/name, then rule order) holds the key
+  (firstSome o.paths fun p =>
+    let same := ds.filter fun d => d.host == p.1 && d.link == p.2.1 && d.host != ""
+    match winner same with
+    | none =>
+      match ownerOf w p.2.2 with
+      | some r => some (whyNot w o r)
+      | none => some "path-without-admitted-declaration"
+    | some d => if d.bid == p.2.2 then none else
+        if same.any (·.bid == p.2.2) then some "not-first-declared" else
+          match ownerOf w p.2.2 with
+          | some r => some (whyNot w o r)
+          | none => some "path-to-foreign-backend") <|>
+  (firstSome o.tcps fun t =>
+    let same := ds.filter fun d => d.host == "" && d.port == t.1
+    match winner same with
+    | none =>
+      match ownerOf w t.2 with
+      | some r => some (whyNot w o r)
+      | none => some "tcp-without-admitted-declaration"
+    | some d => if d.bid == t.2 then none else
+        if same.any (·.bid == t.2) then some "not-first-declared" else
+          match ownerOf w t.2 with
+          | some r => some (whyNot w o r)
+          | none => some "tcp-to-foreign-backend") <|>
+  -- every expected key is configured
+  (firstSome ds fun d =>
+    if d.host == "" then (if o.tcps.any (·.1 == d.port) then none else some "admitted-route-produced-nothing")
+    else if o.paths.any (fun p => p.1 == d.host && p.2.1 == d.link) then none else some "admitted-route-produced-nothing")
+
 end HapVerif.C10
